@@ -124,6 +124,89 @@ fn run_case(cx: &Cx, refs: &Schema, schema: &s1::S1, gcfg: &GenCfg, ch: &mut Cho
     }
 }
 
+/// Family B — "chain pairs": every pair of selection chains (nested single-field paths of depth ≤ 4
+/// through object, interface and list-of-object fields) written side by side under the same root, so that
+/// the two chains share response keys down to some depth and must be merged there; lists have 2 items.
+/// This reaches merge depths the ≤ N-node family cannot afford.
+fn chains() -> Vec<String> {
+    let root: &[&str] = &["o", "l", "ln", "i", "lu"];
+    let leaves_a: &[&str] = &["a", "n"];
+    fn below(c: &str) -> (&'static [&'static str], &'static [&'static str], &'static str, &'static str) {
+        // (containers, leaves, open, close) for what sits under container `c`
+        match c {
+            "i" => (&["o"], &["a", "n"], "", ""),
+            "lu" => (&["o", "l"], &["a", "n"], "... on A { ", " }"),
+            _ => (&["o", "l", "ln"], &["a", "n", "pa"], "", ""),
+        }
+    }
+    fn rec(c: &str, depth: usize, out: &mut Vec<String>) {
+        let (conts, leaves, open, close) = below(c);
+        for l in leaves {
+            out.push(format!("{c} {{ {open}{l}{close} }}"));
+        }
+        if depth > 1 {
+            for k in conts {
+                let mut inner = Vec::new();
+                rec(k, depth - 1, &mut inner);
+                for i in inner {
+                    out.push(format!("{c} {{ {open}{i}{close} }}"));
+                }
+            }
+        }
+    }
+    let _ = leaves_a;
+    let mut out = Vec::new();
+    for c in root {
+        rec(c, 3, &mut out);
+    }
+    out
+}
+
+struct Lists2<'a> {
+    s: &'a Schema,
+    table: std::collections::BTreeMap<String, Ans>,
+}
+impl<'a> agv_refgql::exec::World for Lists2<'a> {
+    fn ask(&mut self, path: &[agv_refgql::exec::Seg], ty: &agv_refgql::ast::Type, _f: Option<(&str, &agv_refgql::schema::FieldT, &[(String, agv_refgql::coerce::Val)])>) -> Ans {
+        if matches!(ty.nullable(), agv_refgql::ast::Type::List(_)) {
+            self.table.insert(path_str(path), Ans::List(2));
+            Ans::List(2)
+        } else {
+            agv_refgql::exec::TableWorld::default_for(self.s, ty)
+        }
+    }
+}
+
+fn chain_pairs(cx: &Cx, refs: &Schema, schema: &s1::S1, cnt: &Counters) -> u64 {
+    use rayon::prelude::*;
+    let cs = chains();
+    let n = cs.len();
+    let quick = cx.quick();
+    let pairs: Vec<(usize, usize)> = (0..n).flat_map(|i| (0..n).map(move |j| (i, j))).filter(|(i, j)| !quick || (i + j) % 3 == 0 || cs[*i].split(' ').next() == cs[*j].split(' ').next()).collect();
+    pairs.par_iter().for_each(|(i, j)| {
+        let text = format!("{{ {} {} }}", cs[*i], cs[*j]);
+        let Ok(doc) = agv_refgql::parse::parse_exec(&text) else { return cx.machinery_error(format!("chain document does not parse: {text}")) };
+        if !agv_refgql::validate::validate(refs, &doc).is_empty() {
+            return cx.machinery_error(format!("chain document is not valid: {text}"));
+        }
+        let mut w = Lists2 { s: refs, table: Default::default() };
+        let reference = agv_refgql::exec::execute(refs, &doc, None, &Default::default(), &mut w);
+        match agv_common::casecheck::run_fixed(refs, &Target::Static(schema), text, doc, Default::default(), w.table, vec!["chain-pair"], Some(reference)) {
+            CaseOutcome::Ran(c) => {
+                cx.eval();
+                cnt.valid.fetch_add(1, Ordering::Relaxed);
+                judge(cx, &c, cnt);
+                cx.nontrivial(c.case_hash());
+                cx.sample_with(c.case_hash(), || json!({"family": "chain-pair", "query": c.text, "data": c.expected_data_text()}));
+            }
+            CaseOutcome::Machinery(m) => cx.machinery_error(m),
+            CaseOutcome::Panic { msg, case } => cx.violation(Violation::new("panic", msg, case)),
+            _ => {}
+        }
+    });
+    pairs.len() as u64
+}
+
 fn run(cx: &Cx) {
     let refs = match Schema::from_sdl(s1::SDL) {
         Ok(s) => s,
@@ -151,12 +234,14 @@ fn run(cx: &Cx) {
     if let Some(d) = st.diverged {
         cx.machinery_error(d);
     }
+    let chain_docs = chain_pairs(cx, &refs, &schema, &cnt);
+    cx.extra("chain_pair_documents", json!(chain_docs));
     let agree = cnt.agree_nonempty.load(Ordering::Relaxed);
     if agree == 0 {
         cx.machinery_error("reference and implementation never agreed on a non-empty result (vacuous or systematically wrong)");
     }
     cx.rule(&format!(
-        "case = (valid document, variables, world). Documents: every document with ≤ {nodes} selection nodes over S1's subset (fields per type {FIELDS:?}, fragment conditions {CONDS:?}, ≤ 2 named fragments, __typename), structure exhaustive, ≤ {deco} decoration(s) (alias forcing key collisions; 12 @skip/@include forms incl. variables and variable defaults); validity decided by the reference validator. Worlds: answers drawn lazily per visited position, ≤ {worldb} deviation(s) from the all-default world (menus: Int {{1,2,null}}, Float {{1.5,-0.0,NaN,inf,null}}, object {{present,null}}, abstract {{A,B,C,null}}, list length {{1,0,2,null}}). Non-trivial = executed cases, distinct by (document, variables, world)."
+        "case = (valid document, variables, world). Documents: every document with ≤ {nodes} selection nodes over S1's subset (fields per type {FIELDS:?}, fragment conditions {CONDS:?}, ≤ 2 named fragments, __typename), structure exhaustive, ≤ {deco} decoration(s) (alias forcing key collisions; 12 @skip/@include forms incl. variables and variable defaults); validity decided by the reference validator. Worlds: answers drawn lazily per visited position, ≤ {worldb} deviation(s) from the all-default world (menus: Int {{1,2,null}}, Float {{1.5,-0.0,NaN,inf,null}}, object {{present,null}}, abstract {{A,B,C,null}}, list length {{1,0,2,null}}). Family B: every pair (quick: every third pair plus all pairs sharing their root field) of selection chains of depth ≤ 4 through o/l/ln/i/lu side by side, lists with 2 items (deep merging of repeated keys). Non-trivial = executed cases, distinct by (document, variables, world)."
     ));
     cx.exhaustive(!st.capped);
     cx.extra("choice_sequences", json!(st.executions));
